@@ -54,11 +54,23 @@ def gen_history(seed, long=False):
     k = rng.choice([1, 1, 2, 3])
     with_settings = rng.random() < 0.6
     many = rng.random() < 0.2       # sessions of more than ten steps whose settings change on the way ("10.0" sorts before "2.0")
+    # (with the compressing adapter anything else than uniform settings runs into the listed finding: half of those histories are uniform)
+    uniform_case = with_settings and rng.random() < (0.5 if adapter == "compressed" else 0.2)
+    if uniform_case and adapter == "compressed" and rng.random() < 0.6:
+        template = "T2"         # two constants per step
+        eqs = ["stockA", "stockB", "move", "gain"]
     streams = []
+    uniform_insts = set()
     for j in range(k):
         scen = rng.choice(["base", "alt"])
 
+        uniform = uniform_case      # every stepping request of every instance carries the same settings KEYS (values differ)
+
         def sett():
+            if uniform:
+                if template == "T1":
+                    return {"smA": {scen: {"constants": {"constant": rng.choice([0.5, 2.0, 3.0, 7.0])}}}}
+                return {"smA": {scen: {"constants": {"k": rng.choice([0.5, 1.0, 2.0]), "drain": rng.choice([0.0, 0.25, 1.0])}}}}
             if not with_settings or rng.random() < 0.4:
                 return rng.choice([{}, {}, None])
             if template == "T1":
@@ -81,7 +93,7 @@ def gen_history(seed, long=False):
                 s.append({"inst": j, "op": rng.choice(["results", "flat"])})
             else:
                 s.append({"inst": j, "op": "keep_alive"})
-        if rng.random() < 0.3 and not long:
+        if rng.random() < 0.3 and not long and not uniform:
             # a second session in the same instance; its first stepping request follows immediately, so that the
             # only crash points at which the new session is not durable yet are the ones right after the begin
             taken = sum((o.get("n", 1) if o["op"] == "steps" else 1) for o in s if o["op"] in ("step", "steps"))
@@ -95,17 +107,27 @@ def gen_history(seed, long=False):
             if rng.random() < 0.5:
                 s.append({"inst": j, "op": "step", "settings": {}})
         if rng.random() < 0.15 and not long:
-            s.append({"inst": j, "op": "stream", "settings": {}})
+            s.append({"inst": j, "op": "stream", "settings": sett() if uniform else {}})
         streams.append(s)
+        uniform_insts.add(j) if uniform else None
     # a client that hangs up in the middle of a stream: the steps it has been sent were taken
     for s in streams:
-        if rng.random() < 0.25 and not long:
+        if rng.random() < 0.25 and not long and s[0]["inst"] not in uniform_insts:
             pos = rng.randint(2, len(s))
             if s[pos - 1]["op"] == "begin":
                 pos += 1        # a begin keeps its immediate first stepping request
             s.insert(min(pos, len(s)), {"inst": s[0]["inst"], "op": "stream_cut", "chunks": rng.choice([1, 2, 3, 4, 6]),
                                         "settings": {} if rng.random() < 0.7 else None})
-    int_specs = rng.choice(["none", "none", "scenario", "begin"])
+    int_specs = rng.choice(["none", "none", "scenario", "begin", "begin_other"]) if not long else rng.choice(["none", "none", "scenario", "begin"])
+    if int_specs == "begin_other":
+        # the session runs on a grid of its own (run specs in the begin-session settings that differ from the scenario's):
+        # a restored session continues on THAT grid
+        rs_ = rng.choice([{"dt": 0.5}, {"starttime": 3.0}, {"starttime": 2.0, "dt": 0.5, "stoptime": 14.0}])
+        for s in streams:
+            for o in s:
+                if o["op"] == "begin":
+                    o["settings"] = copy.deepcopy(o["settings"]) or {}
+                    o["settings"].setdefault("smA", {}).setdefault(o["scenarios"][0], {})["runspecs"] = dict(rs_)
     if int_specs == "begin":
         # run specs written the way people write them: as integers
         for s in streams:
@@ -826,6 +848,18 @@ def trigger(case, v, f):
         return sum((o.get("n", 1) if o["op"] == "steps" else 1) for o in ops[:k] if o["op"] in SAVING) >= 200
     if t == "compressed_adapter":
         return case["config"]["adapter"] == "compressed"
+    if t == "compressed_and_grid_not_1_1":
+        # the session's own grid (run specs in the begin-session settings; the scenarios of this check are all on start 1, dt 1)
+        if case["config"]["adapter"] != "compressed":
+            return False
+        for o in ops:
+            if o["op"] == "begin":
+                for mgr in (o.get("settings") or {}).values():
+                    for sc_ in (mgr or {}).values():
+                        rs = (sc_ or {}).get("runspecs") or {}
+                        if float(rs.get("starttime", 1.0)) != 1.0 or float(rs.get("dt", 1.0)) != 1.0:
+                            return True
+        return False
     if t == "compressed_and_nonuniform_settings":
         if case["config"]["adapter"] != "compressed":
             return False
@@ -865,7 +899,7 @@ def neutralise(case, v, f):
             if o["op"] == "steps" and o["n"] > 20:
                 o["n"] = 20
         return c
-    if t in ("compressed_adapter", "compressed_and_nonuniform_settings"):
+    if t in ("compressed_adapter", "compressed_and_nonuniform_settings", "compressed_and_grid_not_1_1"):
         c["config"]["adapter"] = "plain"
         return c
     return None
